@@ -3,7 +3,7 @@
 EXTENDS Codec, Json
 
 P(k, n, bp, bi) == [k |-> k, n |-> n, bp |-> bp, bi |-> bi, dop |-> NoDop, dct |-> NoDct, cv |-> Missing, cvs |-> <<>>,
-                    bits |-> 0, rq |-> 0, len |-> 0, dv |-> Missing]
+                    bits |-> 0, rq |-> 0, len |-> 0, dv |-> Missing, sys |-> ""]
 Std(base, enc, bits, hilo) == [k |-> "std", base |-> base, enc |-> enc, bits |-> bits, hilo |-> hilo, min |-> 0, max |-> -1,
                                term |-> "", key |-> "", nbits |-> 0]
 MinMax(base, min, max, term) == [Std(base, "NONE", 0, TRUE) EXCEPT !.k = "minmax", !.min = min, !.max = max, !.term = term]
@@ -20,6 +20,8 @@ PhysConst(n, bp, dop, v) == [P("PHYS-CONST", n, bp, -1) EXCEPT !.dop = dop, !.cv
 Reserved(n, bp, bi, bits) == [P("RESERVED", n, bp, bi) EXCEPT !.bits = bits]
 Matching(n, bp, rq, len) == [P("MATCHING-REQUEST-PARAM", n, bp, -1) EXCEPT !.rq = rq, !.len = len]
 Nrc(n, bp, vs) == [P("NRC-CONST", n, bp, -1) EXCEPT !.dct = U8, !.cvs = vs]
+System(n, bp, dop, kind) == [P("SYSTEM", n, bp, -1) EXCEPT !.dop = dop, !.sys = kind]
+Case(n, lo, hi, st) == [n |-> n, lo |-> lo, hi |-> hi, st |-> st]
 LenKey(n, bp, bi, dop) == [P("LENGTH-KEY", n, bp, bi) EXCEPT !.dop = dop]
 
 SID == Const("sid", 0, -1, U8, IntV(34))
@@ -27,7 +29,8 @@ RQ == <<34, 16, 32>>
 D(ps) == [ps |-> ps, rq |-> RQ]
 
 (* family A: one atomic value, every representation x placement *)
-IntKinds == {<<"uint", "NONE">>, <<"uint", "BCD-P">>, <<"uint", "BCD-UP">>, <<"int", "2C">>, <<"int", "1C">>, <<"int", "SM">>}
+IntKinds == {<<"uint", "NONE">>, <<"uint", "BCD-P">>, <<"uint", "BCD-UP">>, <<"int", "2C">>, <<"int", "1C">>, <<"int", "SM">>,
+             <<"int", "DEFAULT">>, <<"uint", "DEFAULT">>}
 PickA(Bits, BitPos, BytePos) ==
     \E k \in IntKinds, n \in Bits, bi \in BitPos, bp \in BytePos, h \in BOOLEAN :
         Pick(D(<<SID, Value("p1", bp, bi, Simple(Std(k[1], k[2], n, h)))>>))
@@ -67,6 +70,19 @@ Shapes(i) == {
     <<Value(Nm("p", i), 1, -1, Simple(U8))>>,
     <<Value(Nm("p", i), -1, -1, Struct(<<Value("a", 0, -1, Simple(Std("uint", "NONE", 4, TRUE))),
                                          Value("b", 0, 4, SimpleA(Std("uint", "NONE", 4, TRUE), {IntV(3), IntV(15)}))>>, -1))>>,
+    \* a multiplexer: key byte, then the content of the chosen case (one case and the default have no structure)
+    <<Value(Nm("p", i), -1, -1, [k |-> "mux", bp |-> 1, kbp |-> 0, kbit |-> 0, kdct |-> U8, hasdflt |-> TRUE,
+                                 cases |-> <<Case("c1", 1, 1, Item), Case("c2", 2, 3, NoDop)>>, dflt |-> Case("dflt", 0, 0, NoDop)])>>,
+    <<Value(Nm("p", i), -1, -1, [k |-> "mux", bp |-> 2, kbp |-> 0, kbit |-> 4, kdct |-> Std("uint", "NONE", 4, TRUE), hasdflt |-> FALSE,
+                                 cases |-> <<Case("c1", 1, 1, Two), Case("c2", 5, 9, Item)>>, dflt |-> Case("none", 0, 0, NoDop)])>>,
+    \* a SYSTEM parameter of a user-defined kind: its value must be supplied
+    <<System(Nm("y", i), -1, Simple(U8), "Year")>>,
+    \* three sub-byte objects in one byte; the third overlaps the first, which is not the one placed just before it
+    <<Value(Nm("p", i), -1, -1, Struct(<<Value("a", 0, 0, SimpleA(Std("uint", "NONE", 3, TRUE), {IntV(5)})),
+                                         Value("b", 0, 5, SimpleA(Std("uint", "NONE", 3, TRUE), {IntV(2)})),
+                                         Value("c", 0, 2, SimpleA(Std("uint", "NONE", 2, TRUE), {IntV(1), IntV(3)}))>>, -1))>>,
+    \* an explicitly positioned value followed by a field that reads to the end of the PDU
+    <<Value(Nm("p", i), 3, -1, Simple(U8)), Value(Nm("f", i), -1, -1, [k |-> "eopfield", st |-> Item])>>,
     <<Const(Nm("c", i), -1, -1, U8, IntV(171))>>,
     <<Const(Nm("c", i), -1, -1, Std("uint", "NONE", 16, FALSE), IntV(4660))>>,
     <<PhysConst(Nm("c", i), -1, Simple(U8), IntV(7))>>,
@@ -100,6 +116,11 @@ PickC1 == \E a \in Shapes(1) : Pick(D(<<SID>> \o a))
 PickC2 == \E a \in Inner(1), b \in Shapes(2) : Pick(D(<<SID>> \o a \o b))
 PickC3 == \E a \in Inner(1), b \in Inner(2), c \in Shapes(3) : Pick(D(<<SID>> \o a \o b \o c))
 
+\* quick: as first of two shapes only those that change the context of what follows (origin, cursor, keys, claims)
+Ctx(i) == {sh \in Inner(i) : \/ sh[1].dop.k \in {"struct", "sfield", "dlfield", "demfield", "mux"}
+                             \/ sh[1].k \in {"LENGTH-KEY", "MATCHING-REQUEST-PARAM", "NRC-CONST", "RESERVED"}
+                             \/ sh[1].bp >= 0}
+PickC2Quick == \E a \in Ctx(1), b \in Shapes(2) : Pick(D(<<SID>> \o a \o b))
 NextQuick == \/ PickA({1, 4, 7, 8, 12, 16, 31, 32, 64}, {-1, 3, 4, 7}, {-1, 2}) \/ PickA2 \/ PickB \/ PickC1 \/ PickC2
              \/ Evaluate
 NextThorough == \/ PickA({1, 2, 3, 4, 5, 7, 8, 9, 12, 15, 16, 17, 24, 30, 31, 32, 33, 48, 63, 64}, {-1, 0, 1, 2, 3, 4, 5, 6, 7}, {-1, 0, 2})
